@@ -496,18 +496,25 @@ func decodedFromIterKey(fn *ssa.Function, val ssa.Value) bool {
 func c17(c *Ctx) {
 	p, r := c.P, c.R
 	r.Technique = "structural write-grouping analysis over go/ssa: same-batch identity of the item and size-record writes, single commit after both, no direct DB writes, synced prune commit; open-time gates by must-pass-through (cut) checks"
-	r.Explanation = "Decides the write-grouping and open-time structure that crash consistency rests on (nothing is executed, no crash point is enumerated): (R1) in Put the size record and the item are set on the same batch, which is committed exactly once after both, what Put adds to the usage figure is len(id)+len(value) of the item on every path, and no store code writes to the database outside a batch; (R2) in prune all deletes and the size record go to one batch committed with Sync=true; (R3) on open: the radius is initialised to the maximum before anything is read, the usage counter is restored from the size record, size > capacity leads to prune (C05.R2), the radius is replaced only under size > 95% of capacity by a value decoded from Iterator.Last's key, and every failing database call returns its error (no half-initialised store); the reserved size record lives under the all-zero 32-byte key (below every content key); (R4) Get returns only (a copy of) bytes read from the database (no cache layer). Not decided: the enumeration of crash points and file-system semantics, and pebble's WAL atomicity itself."
+	r.Explanation = "Decides the write-grouping and open-time structure that crash consistency rests on (nothing is executed, no crash point is enumerated): (R1) in Put the size record and the item are set on the same batch, which is committed exactly once after both, what Put adds to the usage figure is len(id)+len(value) of the item on every path, and no store code writes to the database outside a batch; (R2) in prune all deletes and the size record go to one batch committed with Sync=true; (R3) on open: the radius is initialised to the maximum before anything is read, the usage counter is restored from the size record, size > capacity leads to prune (C05.R2), the radius is replaced only under size > 95% of capacity by a value decoded from Iterator.Last's key, and every failing database call returns its error (no half-initialised store); the reserved size record lives under the all-zero 32-byte key (below every content key); (R4) Get returns only (a copy of) bytes read from the database (no cache layer). (R5) the counter update whose result a put persists, the batch commits and prune() run under one mutex of the store on every call path, so size records reach the log in the order their figures were computed (shared with C05.R1). Not decided: the enumeration of crash points and file-system semantics, and pebble's WAL atomicity itself."
 	r.Assumptions = []string{"pebble: a batch commit is atomic in the WAL; Sync=true makes it durable before returning"}
 	r.Floor("R1.put-batch", 4)
 	r.Floor("R2.prune-batch", 3)
 	r.Floor("R3.open", 6)
 	r.Floor("R4.get", 1)
+	r.Floor("R5.size-record-ordered", 4)
 	m, why := newStoreModel(c)
 	if m == nil {
 		r.Fail("R1.put-batch", "radius-store", "-", why)
 		return
 	}
 	pkg := m.typ.Obj().Pkg().Path()
+
+	// ---- R5: the size record a put commits carries the figure computed by its own counter update; two puts
+	// write their records in the order the figures were computed only if update and commit share one critical
+	// section (otherwise the put with the smaller figure can commit last and a crash then restores a usage
+	// below the bytes present). Same rule as C05.R1.
+	accountingLockRule(c, m, "R5.size-record-ordered")
 
 	// ---- R1
 	batchOf := func(ci ssa.CallInstruction) ssa.Value { return ci.Common().Args[0] }
